@@ -36,4 +36,7 @@ def markerScanCoversWholeList : Bool := true
 /-- Transport.run: no packet is skipped between read_message() and the strict-kex / expected-packet tests -/
 def runJudgesEveryPacket : Bool := true
 
+/-- Packetizer: the roll-over guard tests the (masked) value that is assigned to the sequence-number counter -/
+def rolloverGuardReadsAssignedValue : Bool := true
+
 end PV.Generated.C12
